@@ -56,6 +56,9 @@ func runTArray(c *load.Ctx, r *report.RuleResult) {
 		return
 	}
 	pos := c.Pos(fn.Pos())
+	if baseC := c.Func(pkgSchema, "baseNode.Constraint"); baseC != nil {
+		e.cfg.Intrinsics[baseC.String()] = e.cfg.Intrinsics["invoke:"+types.TypeString(e.nodeT, nil)+".Constraint"]
+	}
 	e.cfg.Intrinsics[child.String()] = func(in *pe.Interp, args []pe.Value) (pe.Value, bool) {
 		return pe.NewSym("child("+strings.Trim(pe.Show(args[1]), "‹›")+")", e.nodeT), true
 	}
@@ -169,6 +172,15 @@ func runTArray(c *load.Ctx, r *report.RuleResult) {
 					r.OK(key, pos, fmt.Sprintf("count rules %v, done", rules))
 				}
 			default:
+				if ev == "LiteralBegin" || ev == "LiteralEnd" {
+					suffix, problem := nullableLiteral(ev, o.ChoiceMap(), o, verdict, ret)
+					if problem != "" {
+						r.Bad(key+suffix, pos, problem)
+					} else {
+						r.OK(key+suffix, pos, "null admitted iff nullable")
+					}
+					continue
+				}
 				if verdict != "reject" {
 					r.Bad(key, pos, "an event that does not belong to an array is not rejected: "+o.Exit())
 				} else {
@@ -177,6 +189,49 @@ func runTArray(c *load.Ctx, r *report.RuleResult) {
 			}
 		}
 	}
+}
+
+// nullableLiteral: the verdict a container validator must give on a literal event — a nullable array
+// or object also admits null ("null only where the example is null, nullable or any"), and nothing else.
+func nullableLiteral(ev string, val map[string]string, o *pe.Outcome, verdict, ret string) (suffix, problem string) {
+	nullable := val["has(NullableConstraintType)"] == "true" && val["Nullable.value"] == "true"
+	suffix = fmt.Sprintf("|nullable=%v", nullable)
+	if _, consulted := val["has(NullableConstraintType)"]; !consulted {
+		return "|nullable not consulted", "a literal in place of the container is decided without asking whether the container is nullable: null is rejected where `nullable: true` admits it (" + o.Exit() + ")"
+	}
+	isNull, asked := false, false
+	for k, v := range val {
+		if strings.Contains(k, "null") && !strings.HasPrefix(k, "has(") {
+			asked = true
+			if v == "true" || v == "=" {
+				isNull = true
+			}
+		}
+	}
+	switch ev {
+	case "LiteralBegin":
+		if nullable {
+			if o.Panicked || ret != "(nil,false)" {
+				return suffix, "a literal may begin where the container is nullable (it may be null): " + o.Exit()
+			}
+			return suffix, ""
+		}
+	case "LiteralEnd":
+		suffix += fmt.Sprintf("|null=%v", isNull)
+		if nullable && asked && isNull {
+			if o.Panicked || !strings.HasSuffix(ret, ",true)") {
+				return suffix, "null must be accepted in place of a nullable container: " + o.Exit()
+			}
+			return suffix, ""
+		}
+		if nullable && !asked && verdict == "reject" {
+			return suffix, "a literal is rejected in place of a nullable container without asking whether it is null: " + o.Exit()
+		}
+	}
+	if verdict != "reject" {
+		return suffix, "a literal is accepted in place of a container although it is not a null admitted by nullable: " + o.Exit()
+	}
+	return suffix, ""
 }
 
 func runTObject(c *load.Ctx, r *report.RuleResult) {
@@ -194,6 +249,9 @@ func runTObject(c *load.Ctx, r *report.RuleResult) {
 		return
 	}
 	pos := c.Pos(fn.Pos())
+	if baseC := c.Func(pkgSchema, "baseNode.Constraint"); baseC != nil {
+		e.cfg.Intrinsics[baseC.String()] = e.cfg.Intrinsics["invoke:"+types.TypeString(e.nodeT, nil)+".Constraint"]
+	}
 	e.cfg.Intrinsics[lexValue.String()] = func(in *pe.Interp, args []pe.Value) (pe.Value, bool) {
 		return pe.NewSym("keytoken", lexValue.Signature.Results().At(0).Type()), true
 	}
@@ -348,6 +406,15 @@ func runTObject(c *load.Ctx, r *report.RuleResult) {
 					}
 				}
 			default:
+				if ev == "LiteralBegin" || ev == "LiteralEnd" {
+					suffix, problem := nullableLiteral(ev, val, o, verdict, ret)
+					if problem != "" {
+						r.Bad(key+suffix, pos, problem)
+					} else {
+						r.OK(key+suffix, pos, "null admitted iff nullable")
+					}
+					continue
+				}
 				if verdict != "reject" {
 					r.Bad(key, pos, "an event that does not belong to an object is not rejected: "+o.Exit())
 				} else {
